@@ -255,3 +255,75 @@ def must_pass_each_iteration(fn, loop, pred):
                 return False
             work.append(s_)
     return True
+
+
+def flag_known(fn, flag_is, gen_value, at_nodes):
+    """Forward must-analysis of one boolean flag over the CFG of fn.
+
+    flag_is(node)   -> None, or the boolean the node assigns to the flag (node is a CFG element)
+    cond_flag(node) is derived from flag_is applied to branch conditions `flag` / `!flag` (through fn.nodes)
+    Returns {node id: True/False}: whether the flag is known to equal gen_value when each of at_nodes executes
+    (intersection over all paths; unknown at function entry)."""
+    cfg = fn.cfg
+
+    def cond_value(cn):
+        """(value of the flag on the true edge) for conditions `flag`, `!flag`; None otherwise"""
+        c = strip(cn)
+        neg = False
+        while c is not None and c.get("k") == "UnaryOperator" and c.get("op") == "!":
+            neg = not neg
+            c = strip(c["c"][0])
+        if c is not None and flag_is(("read", c)):
+            return not neg
+        return None
+    targets = {n["id"]: n for n in at_nodes}
+    IN = {b: None for b in cfg.blocks}          # None = not visited yet (top), else bool "known to equal gen_value"
+    IN[cfg.entry] = False
+    result = {}
+    work = [cfg.entry]
+    edge_fact = {}
+    while work:
+        b = work.pop()
+        cur = IN[b]
+        for e in cfg.blocks[b]["e"]:
+            if not isinstance(e, int):
+                continue
+            n = fn.nodes.get(e)
+            if n is None:
+                continue
+            if e in targets:
+                result[e] = bool(cur) if e not in result else (result[e] and bool(cur))
+            v = flag_is(("write", n))
+            if v is not None:
+                cur = (v == gen_value)
+        cs = cfg.cond_succ(b)
+        for s in cfg.succs(b):
+            out = cur
+            if cs is not None:
+                cv = cond_value(fn.nodes.get(cs[0]) or {})
+                if cv is not None:
+                    if s == cs[1] and s != cs[2]:
+                        out = (cv == gen_value)
+                    elif s == cs[2] and s != cs[1]:
+                        out = ((not cv) == gen_value)
+            new = out if IN[s] is None else (IN[s] and out)
+            if IN[s] is None or new != IN[s]:
+                IN[s] = new
+                work.append(s)
+    # a second sweep so that results reflect the fixed point
+    for b in cfg.blocks:
+        cur = IN[b]
+        if cur is None:
+            continue
+        for e in cfg.blocks[b]["e"]:
+            if not isinstance(e, int):
+                continue
+            n = fn.nodes.get(e)
+            if n is None:
+                continue
+            if e in targets:
+                result[e] = bool(cur)
+            v = flag_is(("write", n))
+            if v is not None:
+                cur = (v == gen_value)
+    return result
